@@ -54,29 +54,33 @@ def run(ctx):
     f_dec = repo.func('letter_id_generator.letter_id_to_number')
     f_isl = repo.func('matcher._is_letter')
     # ---- C14.1 ------------------------------------------------------------------------------------------
-    # letters the encoder can produce: chr(X % M + base), base = ord('A') if caps else ord('a')
-    chrs = [n for n in f_enc.body_nodes() if isinstance(n, ast.Call) and isinstance(n.func, ast.Name) and n.func.id == 'chr']
-    ctx.floor('C14.1', len(chrs), 1, 'chr() in number_to_letter_id')
+    # letters the encoder can produce: chr(R + base) with R a remainder modulo M (x % M or divmod(x, M)[1]) and
+    # base = ord('A') if caps else ord('a'); read from the substituted terms of the paths (so temporaries, divmod and
+    # hoisted constants are looked through)
     produced = {}
-    base_def = [n for n in f_enc.body_nodes() if isinstance(n, ast.Assign) and isinstance(n.targets[0], ast.Name) and n.targets[0].id == 'base']
-    for c in chrs:
-        a = c.args[0]
-        ok = isinstance(a, ast.BinOp) and isinstance(a.op, ast.Add)
-        mod = None
-        basee = None
-        if ok:
-            for x, y in ((a.left, a.right), (a.right, a.left)):
-                if isinstance(x, ast.BinOp) and isinstance(x.op, ast.Mod) and isinstance(x.right, ast.Constant):
-                    mod, basee = x.right.value, y
-        if mod is None or not base_def:
-            ctx.violation('C14.1', 'encoder:letter-shape', f_enc.loc(c), 'letters are no longer produced as chr(v % M + base): %s' % norm(c))
-            continue
-        for caps in (True, False):
-            try:
-                b = _eval(base_def[0].value, {'caps': caps}) if norm(basee) == 'base' else _eval(basee, {'caps': caps})
-            except Exception as ex_:
-                raise AnalysisError('C14.1: cannot evaluate alphabet base %s' % norm(base_def[0].value))
-            produced[caps] = set(range(b, b + mod))
+    nchr = 0
+    for p in paths_of(repo, f_enc, while_unroll=1, asserts='ignore'):
+        caps_dec = [v for a, v in p.decisions if a.text == 'caps']
+        for e in p.events:
+            if e.kind == 'call' and e.ftext == 'chr' and e.args:
+                nchr += 1
+                a = e.args[0]
+                mod = base = None
+                if isinstance(a, ast.BinOp) and isinstance(a.op, ast.Add):
+                    for x, y in ((a.left, a.right), (a.right, a.left)):
+                        if isinstance(x, ast.BinOp) and isinstance(x.op, ast.Mod) and isinstance(x.right, ast.Constant):
+                            mod, base = x.right.value, y
+                        if isinstance(x, ast.Subscript) and isinstance(x.value, ast.Call) and norm(x.value.func) == 'divmod' and len(x.value.args) == 2 \
+                                and isinstance(x.value.args[1], ast.Constant) and isinstance(x.slice, ast.Constant) and x.slice.value == 1:
+                            mod, base = x.value.args[1].value, y
+                if mod is None or not caps_dec:
+                    raise AnalysisError('C14.1: letters are no longer produced as chr(<remainder mod M> + base): %s' % e.text[:80])
+                try:
+                    b = _eval(base, {})
+                except Exception:
+                    raise AnalysisError('C14.1: cannot evaluate alphabet base %s' % norm(base)[:60])
+                produced.setdefault(caps_dec[0], set()).update(range(b, b + mod))
+    ctx.floor('C14.1', nchr, 1, 'chr() in number_to_letter_id')
     for caps, want in ((True, set(range(ord('A'), ord('Z') + 1))), (False, set(range(ord('a'), ord('z') + 1)))):
         got = produced.get(caps, set())
         ctx.check(got == want, 'C14.1', 'encoder:alphabet:%s' % ('caps' if caps else 'lower'), f_enc.loc(), 'the encoder produces exactly the 26 letters %s..%s' % (chr(min(want)), chr(max(want))),
@@ -114,19 +118,44 @@ def run(ctx):
             a0, a2 = norm(rv.args[0]), norm(rv.args[2])
             m0 = re.match(r'^_parse_int_matcher\(text(\[:(.+)\])?\)$', a0)
             m2 = re.match(r'^_parse_generation_matcher\(text\[(.+):\]\)$', a2)
+            if m0 and m2 and m0.group(2) is None:
+                m0 = None
             if m2:
                 nsplit += 1
                 ctx.check(bool(m0) and m0.group(2) == m2.group(1), 'C14.1', 'split:same-cut', f_poi.loc(), 'the label is cut at one position into id digits and incarnation letters',
                           'label is cut as %s / %s' % (a0, a2))
     ctx.floor('C14.1', nsplit, 1, 'id+letters split')
-    loops = [n for n in f_poi.body_nodes() if isinstance(n, ast.While)]
-    ctx.check(len(loops) == 1 and '_is_letter(text[i - 1])' in norm(loops[0].test) and norm(loops[0].body[0]) == 'i -= 1', 'C14.1', 'split:trailing-letters', f_poi.loc(),
+    from .common import scope_nodes
+    loops = [n for g_, n in scope_nodes(repo, f_poi) if isinstance(n, ast.While)]
+    lm = re.search(r'_is_letter\(text\[(\w+) - 1\]\)', norm(loops[0].test)) if len(loops) == 1 else None
+    ctx.check(bool(lm) and re.match(r'^%s > 0 and _is_letter' % lm.group(1), norm(loops[0].test)) is not None and norm(loops[0].body[0]) == '%s -= 1' % lm.group(1), 'C14.1', 'split:trailing-letters', f_poi.loc(),
               'the cut is placed before the maximal run of trailing letters', 'the cut loop is %s' % (norm(loops[0].test) if loops else None))
 
     # ---- C14.2 ------------------------------------------------------------------------------------------
+    def cval(x):
+        if isinstance(x, ast.Constant):
+            return x.value
+        if isinstance(x, ast.Name):
+            r_ = repo.lookup(f_enc.module, x.id)
+            if r_ and r_[0] == 'var' and isinstance(r_[1], ast.Constant):
+                return r_[1].value
+        return None
+
+    class _C:           # adapter so that the code below can keep using `.value` / isinstance(..., ast.Constant)
+        pass
+
     def radix_consts(f):
         out = set()
         for n in f.body_nodes():
+            if isinstance(n, ast.Call) and norm(n.func) == 'divmod' and len(n.args) == 2 and cval(n.args[1]) is not None:
+                out.add(cval(n.args[1]))
+            for fld in ('right', 'value'):
+                v_ = getattr(n, fld, None)
+                if isinstance(v_, ast.Name) and cval(v_) is not None and isinstance(n, (ast.BinOp, ast.AugAssign)) and isinstance(n.op, (ast.Mod, ast.FloorDiv, ast.Mult)):
+                    out.add(cval(v_))
+            if isinstance(n, ast.Compare) and isinstance(n.comparators[-1], ast.Name) and isinstance(cval(n.comparators[-1]), int) and cval(n.comparators[-1]) > 1 \
+                    and isinstance(n.ops[-1], (ast.Lt, ast.LtE)):
+                out.add(cval(n.comparators[-1]))
             if isinstance(n, ast.BinOp) and isinstance(n.op, (ast.Mod, ast.FloorDiv, ast.Mult)) and isinstance(n.right, ast.Constant):
                 out.add(n.right.value)
             if isinstance(n, ast.AugAssign) and isinstance(n.op, (ast.FloorDiv, ast.Mult, ast.Mod)) and isinstance(n.value, ast.Constant):
@@ -161,7 +190,7 @@ def run(ctx):
         none = [v for a, v in p.decisions if a.text == 'self.generation is None']
         if none and not none[0] and p.outcome[0] == 'return':
             t = norm(p.outcome[1])
-            ctx.check("'@' + str(self.id) + number_to_letter_id(self.generation, False)" in t, 'C14.2', 'label:id-then-letters', f_ids.loc(), 'the label is id digits followed by number_to_letter_id(generation)', 'label is %s' % t[:120])
+            ctx.check("'@' + str(self.id) + number_to_letter_id(self.generation, False)" in t.replace('caps=False', 'False'), 'C14.2', 'label:id-then-letters', f_ids.loc(), 'the label is id digits followed by number_to_letter_id(generation)', 'label is %s' % t[:120])
     imp = repo.lookup(repo.modules['core.matcher'], 'letter_id_to_number')
     imp2 = repo.lookup(repo.modules['core.wl.object'], 'number_to_letter_id')
     ctx.check(imp and imp2 and imp[0] == 'func' and imp2[0] == 'func' and imp[1].module is imp2[1].module, 'C14.2', 'same-module', f_enc.loc(), 'label side and matcher side use the two converters of one module')
